@@ -508,7 +508,7 @@ func (s *session) end(op hOp) {
 					}
 				}
 			}
-			if time.Now().After(deadline) {
+			if deadlinePassed(deadline) {
 				s.fail("C12", "vb %d: stream ended with transient cause %q but was not reopened", m.vb, op.Kind)
 				return
 			}
@@ -618,7 +618,7 @@ func (s *session) cancelShutdown() {
 		return
 	}
 	s.label("transient_end_during_shutdown")
-	for dl := time.Now().Add(40 * time.Millisecond); time.Now().Before(dl) && len(s.cl.openLog()) == n0; {
+	for dl := time.Now().Add(40 * time.Millisecond); !deadlinePassed(dl) && len(s.cl.openLog()) == n0; {
 		time.Sleep(500 * time.Microsecond)
 	}
 	if opens := s.cl.openLog()[n0:]; len(opens) > 0 {
@@ -650,7 +650,7 @@ func (s *session) checkActive() {
 	if ended == total {
 		deadline := time.Now().Add(10 * time.Second)
 		for !stopChClosed(s.stopCh) {
-			if time.Now().After(deadline) {
+			if deadlinePassed(deadline) {
 				s.fail("C12", "every assigned vBucket stream has ended for good but the client did not stop")
 				return
 			}
@@ -759,7 +759,7 @@ func (s *session) rebalance(op hOp) {
 				}
 				// the victim's own close request waits until every other stream has been closed and confirmed, then the
 				// server's end of the victim's stream arrives (its close request finds no stream any more)
-				for dl := time.Now().Add(2 * time.Second); int(others.Load()) < len(open)-1 && time.Now().Before(dl); {
+				for dl := time.Now().Add(2 * time.Second); int(others.Load()) < len(open)-1 && !deadlinePassed(dl); {
 					time.Sleep(100 * time.Microsecond)
 				}
 				time.Sleep(300 * time.Microsecond)
@@ -892,7 +892,7 @@ func (s *session) rebalance(op hOp) {
 			s.stopped = true
 			return
 		}
-		if time.Now().After(deadline) {
+		if deadlinePassed(deadline) {
 			s.fail("C04", "stream did not reopen after a rebalance")
 			return
 		}
@@ -911,7 +911,7 @@ func (s *session) rebalance(op hOp) {
 			if n >= 2 {
 				break
 			}
-			if time.Now().After(deadline) {
+			if deadlinePassed(deadline) {
 				s.fail(endProp, "vb %d: its stream ended with a transient cause while the rebalance was completing (after its own request had been answered) and was not requested again: the member does not stream its whole range (%d-%d) after the rebalance, it streams %s", endedInRebalance, s.lo, s.hi, s.cl.liveRange())
 				return
 			}
